@@ -174,11 +174,12 @@ def run(ctx, replay=None):
 
     quick = ctx.tier == 'quick'
     workers = 4
-    exhaustive = ['q', 'q3', 'g2', 't111x', 't1120'] if quick else ['q', 'q3', 'g2', 't111x', 't1120', 't3111', 't1111', 'm2', 'w2']
-    graph_cfgs = {'q': 14, 'q3': 16, 'g2': 14, 't111x': 400, 't1120': 400} if quick else \
+    exhaustive = ['q', 'g2', 't1120'] if quick else ['q', 'q3', 'g2', 't111x', 't1120', 't3111', 't1111', 'm2', 'w2']
+    graph_cfgs = {'q': 14, 'g2': 14, 't1120': 400} if quick else \
                  {'q': 14, 'q3': 16, 'g2': 14, 't111x': 400, 't1120': 400, 't3111': 400, 't1111': 400}
-    max_paths = {'q3': 400} if quick else {'q3': 6000}
+    max_paths = {'q': 2500, 'g2': 1500} if quick else {'q3': 5000}
     sim_cfgs = [] if quick else [('s', 60, 40), ('sw', 60, 40)]
+    old_cfgs = ['oldDup'] if quick else list(OLD)
     all_traces = []
     for name in exhaustive:
         cfgfile = CFGS[name][0]
@@ -206,7 +207,7 @@ def run(ctx, replay=None):
         tlc.cleanup(r)
     # the specification must be able to tell the old behaviours from the fixed ones
     sens = {}
-    for name, prop in OLD.items():
+    for name in old_cfgs:
         r = tlc.run(SPEC, MOD, 'MC_AdminOp_%s.cfg' % name, workers=2, timeout=600)
         sens[name] = r.violation
         if not r.violation:
